@@ -80,9 +80,12 @@ Fixpoint mapM {A B} (f : A -> result B) (l : list A) : result (list B) :=
   end.
 
 (* Generator(pofx, x=x, cumulative=c, rng=stub).sample(len us) on the deviates us returned by
-   rng.uniform(size=n).  ValueError: shapes differ; IndexError: pcum[-1] of an empty table. *)
+   rng.uniform(size=n).  ValueError: shapes differ, or cumulative_trapezoid is handed an empty
+   grid ("At least one point is required along `axis`"); IndexError: pcum[-1] of an empty table
+   (grid of one point: cumulative_trapezoid returns an empty array). *)
 Definition gen_sample (cumulative : bool) (pofx x : list Q) (us : list Q) : result (list Q) :=
   if negb (length pofx =? length x)%nat then Err EValue
+  else if (negb cumulative && (length x =? 0)%nat)%bool then Err EValue
   else
     let '(xvals, pcum) := gen_tables cumulative pofx x in
     match pcum with
